@@ -124,7 +124,13 @@ def run(pid, tier, seed, res, seeds_extra=None, only=None):
                     r["none_pattern"] = [v is None for v in st[1]]
             qres.append(r)
         impl.append(dict(tables=tables, qres=qres))
-        ids, terms = kgraph.model_terms(case, tables)
+        # tags are what the user DECLARED (decorator tag, or the call site's twz_tag which replaces it)
+        decl_tags = kgraph.declared_tags(case)
+        impl_tags = {k_: sorted(v_) for k_, v_ in tables["tags"].items() if k_.startswith("n") and k_[1:].isdigit()}
+        if impl_tags != {k_: sorted(v_) for k_, v_ in decl_tags.items()}:
+            for p_ in ("C12", "C03"):
+                res.hit(p_, "monitor", "tag table of the DAG %s differs from the declared tags %s (a call site's twz_tag replaces the decorator's tag)" % (impl_tags, decl_tags), dict(engine="kgraph", case=case, kind="monitor"))
+        ids, terms = kgraph.model_terms(case, dict(tables, tags=dict({k_: v_ for k_, v_ in tables["tags"].items() if not (k_.startswith("n") and k_[1:].isdigit())}, **decl_tags)))
         for label, term in terms:
             where.append((ci, label, ids))
             items.append(term)
